@@ -36,12 +36,20 @@ pub open spec fn fieldset_syms(fs: Fieldset) -> Seq<Symbol> {
 
 pub open spec fn rule_rhs(r: Rule) -> Seq<Symbol> { fieldset_syms(*r.fieldset) }
 
-/// left-hand side (nonterminal name) of a rule
-pub open spec fn rule_lhs(r: Rule) -> Seq<char> {
-    match r.constructor_name {
+pub open spec fn cn_type_name(c: ConstructorName) -> Seq<char> {
+    match c {
         ConstructorName::Struct(name) => name@,
         ConstructorName::EnumVariant { enum_name, variant_name } => enum_name@,
     }
+}
+
+/// left-hand side (nonterminal name) of a rule
+pub open spec fn rule_lhs(r: Rule) -> Seq<char> { cn_type_name(r.constructor_name) }
+
+/// pointwise equality of assignments
+pub open spec fn fa_eq(x: FA, y: FA) -> bool {
+    &&& forall|a: Seq<char>| #[trigger] (x.nul)(a) == (y.nul)(a)
+    &&& forall|a: Seq<char>, t: DollarlessTerminalName| #[trigger] (x.fst)(a, t) == (y.fst)(a, t)
 }
 
 /// name of a nonterminal declaration
@@ -63,6 +71,262 @@ pub open spec fn sym_after_dot(rules: Seq<Rule>, it: StateItem) -> Option<Symbol
         RuleIndex::Original(ri) =>
             if ri < rules.len() && it.dot < rule_rhs(rules[ri as int]).len() { Some(rule_rhs(rules[ri as int])[it.dot as int]) } else { None },
         RuleIndex::Augmented => None,
+    }
+}
+
+
+// =====================================================================================================
+// FIRST / nullable: least fixpoint of the textbook equations, as Kleene iterates from the empty assignment
+// =====================================================================================================
+
+pub open spec fn sym_name(s: Symbol) -> Seq<char> { s->Nonterminal_0@ }
+
+/// every symbol of syms[0..i) is a nonterminal that is nullable at level n
+pub open spec fn prefix_nullable_n(g: Seq<Rule>, n: nat, syms: Seq<Symbol>, i: int) -> bool
+    decreases n, 1nat
+{
+    forall|j: int| 0 <= j < i && j < syms.len() ==> (#[trigger] syms[j]) is Nonterminal && nullable_n(g, n, sym_name(syms[j]))
+}
+
+/// A is nullable at level n: some rule A -> X1..Xk with all Xi nullable at level n-1
+pub open spec fn nullable_n(g: Seq<Rule>, n: nat, a: Seq<char>) -> bool
+    decreases n, 0nat
+{
+    n > 0 && exists|ri: int| 0 <= ri < g.len() && rule_lhs(#[trigger] g[ri]) == a
+        && prefix_nullable_n(g, (n - 1) as nat, rule_rhs(g[ri]), rule_rhs(g[ri]).len() as int)
+}
+
+/// t is in FIRST_n of the symbol sequence: some position i contributes t and everything before it is nullable
+pub open spec fn seq_first_n(g: Seq<Rule>, n: nat, syms: Seq<Symbol>, t: DollarlessTerminalName) -> bool
+    decreases n, 1nat
+{
+    exists|i: int| 0 <= i < syms.len() && prefix_nullable_n(g, n, syms, i)
+        && ((#[trigger] syms[i]) == Symbol::Terminal(t) || (syms[i] is Nonterminal && first_n(g, n, sym_name(syms[i]), t)))
+}
+
+pub open spec fn first_n(g: Seq<Rule>, n: nat, a: Seq<char>, t: DollarlessTerminalName) -> bool
+    decreases n, 0nat
+{
+    n > 0 && exists|ri: int| 0 <= ri < g.len() && rule_lhs(#[trigger] g[ri]) == a && seq_first_n(g, (n - 1) as nat, rule_rhs(g[ri]), t)
+}
+
+/// t is in FIRST(A)
+pub open spec fn in_first(g: Seq<Rule>, a: Seq<char>, t: DollarlessTerminalName) -> bool { exists|n: nat| first_n(g, n, a, t) }
+/// A derives the empty string
+pub open spec fn nullable(g: Seq<Rule>, a: Seq<char>) -> bool { exists|n: nat| nullable_n(g, n, a) }
+
+/// an assignment of (terminal set, nullable flag) to nonterminal names
+pub struct FA {
+    pub fst: spec_fn(Seq<char>, DollarlessTerminalName) -> bool,
+    pub nul: spec_fn(Seq<char>) -> bool,
+}
+
+pub open spec fn fa_prefix_nullable(fa: FA, syms: Seq<Symbol>, i: int) -> bool {
+    forall|j: int| 0 <= j < i && j < syms.len() ==> (#[trigger] syms[j]) is Nonterminal && (fa.nul)(sym_name(syms[j]))
+}
+
+/// FIRST of a symbol sequence under an assignment
+pub open spec fn fa_seq_first(fa: FA, syms: Seq<Symbol>, t: DollarlessTerminalName) -> bool {
+    exists|i: int| 0 <= i < syms.len() && fa_prefix_nullable(fa, syms, i)
+        && ((#[trigger] syms[i]) == Symbol::Terminal(t) || (syms[i] is Nonterminal && (fa.fst)(sym_name(syms[i]), t)))
+}
+
+pub open spec fn fa_seq_nullable(fa: FA, syms: Seq<Symbol>) -> bool { fa_prefix_nullable(fa, syms, syms.len() as int) }
+
+/// the assignment is closed under the equations (a pre-fixpoint)
+pub open spec fn fa_closed(g: Seq<Rule>, fa: FA) -> bool {
+    forall|ri: int| 0 <= ri < g.len() ==> {
+        &&& fa_seq_nullable(fa, rule_rhs(#[trigger] g[ri])) ==> (fa.nul)(rule_lhs(g[ri]))
+        &&& forall|t: DollarlessTerminalName| fa_seq_first(fa, rule_rhs(g[ri]), t) ==> #[trigger] (fa.fst)(rule_lhs(g[ri]), t)
+    }
+}
+
+/// the assignment claims nothing beyond the least fixpoint
+pub open spec fn fa_sound(g: Seq<Rule>, fa: FA) -> bool {
+    &&& forall|a: Seq<char>| #[trigger] (fa.nul)(a) ==> nullable(g, a)
+    &&& forall|a: Seq<char>, t: DollarlessTerminalName| #[trigger] (fa.fst)(a, t) ==> in_first(g, a, t)
+}
+
+/// the least fixpoint itself
+pub open spec fn fa_lfp(g: Seq<Rule>) -> FA {
+    FA { fst: |a: Seq<char>, t: DollarlessTerminalName| in_first(g, a, t), nul: |a: Seq<char>| nullable(g, a) }
+}
+
+/// FIRST of a sentential form / its nullability (w.r.t. the least fixpoint)
+pub open spec fn seq_in_first(g: Seq<Rule>, syms: Seq<Symbol>, t: DollarlessTerminalName) -> bool { fa_seq_first(fa_lfp(g), syms, t) }
+pub open spec fn seq_nullable(g: Seq<Rule>, syms: Seq<Symbol>) -> bool { fa_seq_nullable(fa_lfp(g), syms) }
+
+/// unfolding helpers (the level predicates are mutually recursive, so they unfold only on request)
+pub proof fn lemma_prefix_nullable_n_unfold(g: Seq<Rule>, n: nat, syms: Seq<Symbol>, i: int)
+    ensures prefix_nullable_n(g, n, syms, i) <==>
+        (forall|j: int| 0 <= j < i && j < syms.len() ==> (#[trigger] syms[j]) is Nonterminal && nullable_n(g, n, sym_name(syms[j])))
+{
+}
+
+pub proof fn lemma_levels_monotone(g: Seq<Rule>, n: nat)
+    ensures
+        forall|a: Seq<char>| #[trigger] nullable_n(g, n, a) ==> nullable_n(g, n + 1, a),
+        forall|a: Seq<char>, t: DollarlessTerminalName| #[trigger] first_n(g, n, a, t) ==> first_n(g, n + 1, a, t),
+    decreases n
+{
+    if n > 0 {
+        lemma_levels_monotone(g, (n - 1) as nat);
+        assert forall|a: Seq<char>| #[trigger] nullable_n(g, n, a) implies nullable_n(g, n + 1, a) by {
+            let ri = choose|ri: int| 0 <= ri < g.len() && rule_lhs(#[trigger] g[ri]) == a
+                && prefix_nullable_n(g, (n - 1) as nat, rule_rhs(g[ri]), rule_rhs(g[ri]).len() as int);
+            lemma_prefix_nullable_n_unfold(g, (n - 1) as nat, rule_rhs(g[ri]), rule_rhs(g[ri]).len() as int);
+            lemma_prefix_nullable_n_unfold(g, n, rule_rhs(g[ri]), rule_rhs(g[ri]).len() as int);
+            assert(prefix_nullable_n(g, n, rule_rhs(g[ri]), rule_rhs(g[ri]).len() as int));
+        }
+        assert forall|a: Seq<char>, t: DollarlessTerminalName| #[trigger] first_n(g, n, a, t) implies first_n(g, n + 1, a, t) by {
+            let ri = choose|ri: int| 0 <= ri < g.len() && rule_lhs(#[trigger] g[ri]) == a && seq_first_n(g, (n - 1) as nat, rule_rhs(g[ri]), t);
+            let syms = rule_rhs(g[ri]);
+            let i = choose|i: int| 0 <= i < syms.len() && prefix_nullable_n(g, (n - 1) as nat, syms, i)
+                && ((#[trigger] syms[i]) == Symbol::Terminal(t) || (syms[i] is Nonterminal && first_n(g, (n - 1) as nat, sym_name(syms[i]), t)));
+            lemma_prefix_nullable_n_unfold(g, (n - 1) as nat, syms, i);
+            lemma_prefix_nullable_n_unfold(g, n, syms, i);
+            assert(prefix_nullable_n(g, n, syms, i));
+            assert(seq_first_n(g, n, syms, t));
+        }
+    }
+}
+
+pub proof fn lemma_levels_monotone_to(g: Seq<Rule>, n: nat, m: nat)
+    requires n <= m
+    ensures
+        forall|a: Seq<char>| #[trigger] nullable_n(g, n, a) ==> nullable_n(g, m, a),
+        forall|a: Seq<char>, t: DollarlessTerminalName| #[trigger] first_n(g, n, a, t) ==> first_n(g, m, a, t),
+    decreases m - n
+{
+    if n < m { lemma_levels_monotone_to(g, n, (m - 1) as nat); lemma_levels_monotone(g, (m - 1) as nat); }
+}
+
+/// every level of the iteration stays below any closed assignment: the least fixpoint is below every pre-fixpoint
+pub proof fn lemma_lfp_below_closed(g: Seq<Rule>, fa: FA, n: nat)
+    requires fa_closed(g, fa)
+    ensures
+        forall|a: Seq<char>| #[trigger] nullable_n(g, n, a) ==> (fa.nul)(a),
+        forall|a: Seq<char>, t: DollarlessTerminalName| #[trigger] first_n(g, n, a, t) ==> (fa.fst)(a, t),
+    decreases n
+{
+    if n > 0 {
+        lemma_lfp_below_closed(g, fa, (n - 1) as nat);
+        assert forall|a: Seq<char>| #[trigger] nullable_n(g, n, a) implies (fa.nul)(a) by {
+            let ri = choose|ri: int| 0 <= ri < g.len() && rule_lhs(#[trigger] g[ri]) == a
+                && prefix_nullable_n(g, (n - 1) as nat, rule_rhs(g[ri]), rule_rhs(g[ri]).len() as int);
+            lemma_prefix_nullable_n_unfold(g, (n - 1) as nat, rule_rhs(g[ri]), rule_rhs(g[ri]).len() as int);
+            assert(fa_seq_nullable(fa, rule_rhs(g[ri])));
+        }
+        assert forall|a: Seq<char>, t: DollarlessTerminalName| #[trigger] first_n(g, n, a, t) implies (fa.fst)(a, t) by {
+            let ri = choose|ri: int| 0 <= ri < g.len() && rule_lhs(#[trigger] g[ri]) == a && seq_first_n(g, (n - 1) as nat, rule_rhs(g[ri]), t);
+            let syms = rule_rhs(g[ri]);
+            let i = choose|i: int| 0 <= i < syms.len() && prefix_nullable_n(g, (n - 1) as nat, syms, i)
+                && ((#[trigger] syms[i]) == Symbol::Terminal(t) || (syms[i] is Nonterminal && first_n(g, (n - 1) as nat, sym_name(syms[i]), t)));
+            lemma_prefix_nullable_n_unfold(g, (n - 1) as nat, syms, i);
+            assert(fa_prefix_nullable(fa, syms, i));
+            assert(fa_seq_first(fa, syms, t));
+        }
+    }
+}
+
+/// a sound assignment stays sound when one rule's contribution is added to its left-hand side
+pub proof fn lemma_rule_contribution_sound(g: Seq<Rule>, fa: FA, ri: int)
+    requires fa_sound(g, fa), 0 <= ri < g.len()
+    ensures
+        fa_seq_nullable(fa, rule_rhs(g[ri])) ==> nullable(g, rule_lhs(g[ri])),
+        forall|t: DollarlessTerminalName| fa_seq_first(fa, rule_rhs(g[ri]), t) ==> in_first(g, rule_lhs(g[ri]), t),
+{
+    let syms = rule_rhs(g[ri]);
+    // a common level for finitely many facts: induction over the prefix
+    if fa_seq_nullable(fa, syms) {
+        let n = lemma_prefix_level(g, fa, syms, syms.len() as int);
+        assert(nullable_n(g, n + 1, rule_lhs(g[ri])));
+    }
+    assert forall|t: DollarlessTerminalName| fa_seq_first(fa, syms, t) implies in_first(g, rule_lhs(g[ri]), t) by {
+        let i = choose|i: int| 0 <= i < syms.len() && fa_prefix_nullable(fa, syms, i)
+            && ((#[trigger] syms[i]) == Symbol::Terminal(t) || (syms[i] is Nonterminal && (fa.fst)(sym_name(syms[i]), t)));
+        let n1 = lemma_prefix_level(g, fa, syms, i);
+        if syms[i] == Symbol::Terminal(t) {
+            assert(seq_first_n(g, n1, syms, t));
+            assert(first_n(g, n1 + 1, rule_lhs(g[ri]), t));
+        } else {
+            let si = syms[i];
+            let n2 = choose|n2: nat| first_n(g, n2, sym_name(si), t);
+            let n = if n1 >= n2 { n1 } else { n2 };
+            lemma_levels_monotone_to(g, n1, n);
+            lemma_levels_monotone_to(g, n2, n);
+            lemma_prefix_nullable_n_unfold(g, n1, syms, i);
+            lemma_prefix_nullable_n_unfold(g, n, syms, i);
+            assert(prefix_nullable_n(g, n, syms, i));
+            assert(seq_first_n(g, n, syms, t));
+            assert(first_n(g, n + 1, rule_lhs(g[ri]), t));
+        }
+    }
+}
+
+/// a level at which the whole prefix syms[0..i) is nullable
+pub proof fn lemma_prefix_level(g: Seq<Rule>, fa: FA, syms: Seq<Symbol>, i: int) -> (n: nat)
+    requires fa_sound(g, fa), 0 <= i <= syms.len(), fa_prefix_nullable(fa, syms, i)
+    ensures prefix_nullable_n(g, n, syms, i)
+    decreases i
+{
+    if i == 0 { 0 } else {
+        let n1 = lemma_prefix_level(g, fa, syms, i - 1);
+        let last = syms[i - 1];
+        assert(last is Nonterminal && (fa.nul)(sym_name(last)));
+        let n2 = choose|n2: nat| nullable_n(g, n2, sym_name(last));
+        let n = if n1 >= n2 { n1 } else { n2 };
+        lemma_levels_monotone_to(g, n1, n);
+        lemma_levels_monotone_to(g, n2, n);
+        lemma_prefix_nullable_n_unfold(g, n1, syms, i - 1);
+        assert forall|j: int| 0 <= j < i && j < syms.len() implies (#[trigger] syms[j]) is Nonterminal && nullable_n(g, n, sym_name(syms[j])) by {
+            if j < i - 1 { assert(syms[j] is Nonterminal && nullable_n(g, n1, sym_name(syms[j]))); }
+        }
+        lemma_prefix_nullable_n_unfold(g, n, syms, i);
+        n
+    }
+}
+
+pub proof fn lemma_fa_eq_seq(x: FA, y: FA, syms: Seq<Symbol>)
+    requires fa_eq(x, y)
+    ensures fa_seq_nullable(x, syms) == fa_seq_nullable(y, syms),
+        forall|i: int| fa_prefix_nullable(x, syms, i) == fa_prefix_nullable(y, syms, i),
+        forall|t: DollarlessTerminalName| fa_seq_first(x, syms, t) == fa_seq_first(y, syms, t),
+{
+    assert forall|i: int| fa_prefix_nullable(x, syms, i) == fa_prefix_nullable(y, syms, i) by {
+        if fa_prefix_nullable(x, syms, i) {
+            assert forall|j: int| 0 <= j < i && j < syms.len() implies (#[trigger] syms[j]) is Nonterminal && (y.nul)(sym_name(syms[j])) by { assert((x.nul)(sym_name(syms[j]))); }
+        }
+        if fa_prefix_nullable(y, syms, i) {
+            assert forall|j: int| 0 <= j < i && j < syms.len() implies (#[trigger] syms[j]) is Nonterminal && (x.nul)(sym_name(syms[j])) by { assert((y.nul)(sym_name(syms[j]))); }
+        }
+    }
+    assert forall|t: DollarlessTerminalName| fa_seq_first(x, syms, t) == fa_seq_first(y, syms, t) by {
+        if fa_seq_first(x, syms, t) {
+            let i = choose|i: int| 0 <= i < syms.len() && fa_prefix_nullable(x, syms, i)
+                && ((#[trigger] syms[i]) == Symbol::Terminal(t) || (syms[i] is Nonterminal && (x.fst)(sym_name(syms[i]), t)));
+            assert(fa_prefix_nullable(y, syms, i));
+        }
+        if fa_seq_first(y, syms, t) {
+            let i = choose|i: int| 0 <= i < syms.len() && fa_prefix_nullable(y, syms, i)
+                && ((#[trigger] syms[i]) == Symbol::Terminal(t) || (syms[i] is Nonterminal && (y.fst)(sym_name(syms[i]), t)));
+            assert(fa_prefix_nullable(x, syms, i));
+        }
+    }
+}
+
+/// a closed and sound assignment IS the least fixpoint
+pub proof fn lemma_closed_sound_is_lfp(g: Seq<Rule>, fa: FA)
+    requires fa_closed(g, fa), fa_sound(g, fa)
+    ensures
+        forall|a: Seq<char>| #[trigger] (fa.nul)(a) <==> nullable(g, a),
+        forall|a: Seq<char>, t: DollarlessTerminalName| #[trigger] (fa.fst)(a, t) <==> in_first(g, a, t),
+{
+    assert forall|a: Seq<char>| nullable(g, a) implies #[trigger] (fa.nul)(a) by {
+        let n = choose|n: nat| nullable_n(g, n, a); lemma_lfp_below_closed(g, fa, n);
+    }
+    assert forall|a: Seq<char>, t: DollarlessTerminalName| in_first(g, a, t) implies #[trigger] (fa.fst)(a, t) by {
+        let n = choose|n: nat| first_n(g, n, a, t); lemma_lfp_below_closed(g, fa, n);
     }
 }
 
